@@ -1,4 +1,5 @@
 import DspVerif.Gen.Cmplx
+import DspVerif.Gen.Dynamics
 /-!
 # Elementary, reduction and shape functions of the math toolbox (core only — no Mathlib)
 
@@ -12,6 +13,10 @@ Hand-written executable models of `lib/math.cpp`, `include/dsplib/math.h`, `lib/
 * **value functions** are generic in the scalar `α` (`Fn α`): the FORMULA the code evaluates, in
   the operation order of the C++ source; run at `Float` by the driver, reasoned about at `ℝ`
   by `Props/C17`.
+* the dB conversions `mag2db`, `db2mag`, `pow2db`, `db2pow` and `abs2(real_t)` are NOT hand-copied
+  here: the driver (`Driver/H17`) and the theorems (`Props/C17`) use the machine-generated
+  `Gen.mag2db` / `Gen.db2mag` / `Gen.pow2db` / `Gen.db2pow` / `Gen.abs2r` of `Gen/Dynamics.lean`
+  (regenerated from the C++ AST of `lib/math.cpp`, `include/dsplib/math.h` on every check run).
 
 IEEE behaviour made explicit:
 * `angle` is `std::atan2(im, re)`.  `Fn` has no `atan2`; the model is the standard case split on the
@@ -210,10 +215,7 @@ def rpowiArr (x : Array α) (n : Int) : Array α :=
 def cpowiArr (x : Array (Cx α)) (n : Int) : Array (Cx α) :=
   if n = 0 then x.map (fun _ => ⟨Fn.ofNat 1, Fn.ofNat 0⟩) else if n = 1 then x else x.map (fun v => cpowi v n)
 
-def pow2db (v : α) : α := Fn.ofNat 10 * Fn.log10 v
-def db2pow (v : α) : α := Fn.pow (Fn.ofNat 10) (v / Fn.ofNat 10)
-def mag2db (v : α) : α := Fn.ofNat 20 * Fn.log10 v
-def db2mag (v : α) : α := Fn.pow (Fn.ofNat 10) (v / Fn.ofNat 20)
+-- `pow2db`, `db2pow`, `mag2db`, `db2mag`, `abs2(real_t)`: see `Gen/Dynamics.lean` (generated; no hand copy)
 def deg2rad (x : α) : α := x / Fn.ofNat 180 * Fn.pi
 def rad2deg (x : α) : α := x / Fn.pi * Fn.ofNat 180
 
